@@ -49,7 +49,6 @@ Inductive event :=
 | EvCancelLoop (q : Z)       (* run_one_queue cancels the loop after the stop event *)
 | EvEnqueue (q m : Z).       (* a producer enqueues m on q *)
 
-Definition locked (s : rstate) : bool := (value s <=? 0) || negb (match waiters s with [] => true | _ => false end).
 
 Fixpoint get_loop (q : Z) (ls : list loop) : option loop :=
   match ls with [] => None | l :: r => if l_q l =? q then Some l else get_loop q r end.
@@ -58,17 +57,28 @@ Fixpoint set_loop (q : Z) (st : lstate) (p : bool) (ls : list loop) : list loop 
 
 Definition upd (s : rstate) v w ls ts st pr sp bl lk : rstate := mkR (limit s) (maxt s) v w ls ts st pr sp bl lk.
 
-(* Semaphore.release(): value+1, then the first waiter (if any) takes the slot at once *)
-Definition release (s : rstate) : rstate :=
+(* Semaphore.locked() of CPython 3.12: no free slot, or somebody is queued - INCLUDING a waiter that has been handed a slot
+   and has not resumed yet (its future stays in _waiters until it runs): a newcomer queues up behind it even when a second
+   release has made the value positive again; the granted waiter passes the spare slot on when it resumes *)
+Definition is_granted (l : loop) : bool := match l_st l with LGranted _ => true | _ => false end.
+Definition locked (s : rstate) : bool :=
+  (value s <=? 0) || negb (match waiters s with [] => true | _ => false end) || existsb is_granted (loops s).
+
+(* Semaphore._wake_up_next(): the first waiter (if any) takes a slot at once *)
+Definition wake_next (s : rstate) : rstate :=
   match waiters s with
-  | [] => upd s (value s + 1) [] (loops s) (tasks s) (started s) (processed s) (stop s) (backlog s) (leaked s)
+  | [] => s
   | q :: w =>
       match get_loop q (loops s) with
       | Some (mkLoop _ (LWaiting m) p) =>
-          upd s (value s) w (set_loop q (LGranted m) p (loops s)) (tasks s) (started s) (processed s) (stop s) (backlog s) (leaked s)
-      | _ => upd s (value s + 1) w (loops s) (tasks s) (started s) (processed s) (stop s) (backlog s) (leaked s)
+          upd s (value s - 1) w (set_loop q (LGranted m) p (loops s)) (tasks s) (started s) (processed s) (stop s) (backlog s) (leaked s)
+      | _ => upd s (value s) w (loops s) (tasks s) (started s) (processed s) (stop s) (backlog s) (leaked s)
       end
   end.
+
+(* Semaphore.release(): value+1, then _wake_up_next() *)
+Definition release (s : rstate) : rstate :=
+  wake_next (upd s (value s + 1) (waiters s) (loops s) (tasks s) (started s) (processed s) (stop s) (backlog s) (leaked s)).
 
 (* max_tasks_hit: max_tasks - processed - (limit - value) <= 0 *)
 Definition max_tasks_hit (s : rstate) : bool :=
@@ -119,7 +129,9 @@ Definition step_ev (s : rstate) (e : event) : option rstate :=
   | EvUnpause q =>
       match get_loop q (loops s) with
       | Some (mkLoop _ (LGranted m) _) =>
-          Some (upd s (value s) (waiters s) (set_loop q (LHold m) false (loops s)) (tasks s) (started s) (processed s) (stop s) (backlog s) (leaked s))
+          (* acquire() resumes: `if self._value > 0: self._wake_up_next()` - a spare slot is passed on *)
+          let s1 := upd s (value s) (waiters s) (set_loop q (LHold m) false (loops s)) (tasks s) (started s) (processed s) (stop s) (backlog s) (leaked s) in
+          Some (if 0 <? value s1 then wake_next s1 else s1)
       | _ => None
       end
   | EvSpawn q =>
